@@ -28,8 +28,10 @@ octagons), except where the comment next to the theorem names one more hypothesi
 * `PPLV.Props.C03Trans2Lat` — both domains, the lattice-style and dimension-changing operations:
   `*_intersection_*`, `*_upper_bound_*`, `*_concatenate_*`, `*_embed_*`, `*_project_*`, `*_remove_dims_*`,
   `*_remove_higher_*`, `*_map_dims_*`, `*_expand_*`, `*_fold_sound`, `*_difference_pieces_sound`
-  (`_sound`: every rounding; `_exact`: equality of γ, for every rounding where the operation only copies /
-  compares entries, for exact arithmetic where a closure is involved).
+  (`_sound`: every rounding; `_exact`: equality of γ, resp. leastness for `upper_bound` / `fold`, for every
+  rounding where the operation only copies / compares entries, for exact arithmetic where a closure is involved —
+  both domains complete: the octagon ones rest on tightness of the exact strong closure,
+  `OctM.IsStronglyClosed.exists_point_ge`).
 
 The tie to the real code is `harness/c03_trans.cc --s5`, `Driver/WRT.lean` (`pplv_wrt`), `checks/c03_trans.py`.
 -/
